@@ -62,7 +62,7 @@ def with_timeout(f, seconds):
 
 
 class Outcome:
-    __slots__ = ('ok', 'nontrivial', 'labels', 'kind', 'detail', 'excluded')
+    __slots__ = ('ok', 'nontrivial', 'labels', 'kind', 'detail', 'excluded', 'units')
 
     def __init__(self):
         self.ok = True
@@ -71,6 +71,7 @@ class Outcome:
         self.kind = None
         self.detail = None
         self.excluded = []      # kinds of known findings met (and skipped) in this case
+        self.units = 0          # inner executions of this case (crash points, fault runs, schedules, call shapes)
 
     def label(self, *names):
         self.labels.extend(names)
